@@ -82,6 +82,10 @@ CHECKS = {
          "DESIGN.md 4/C20",
          "A real directory with a file for every name of <= 3 chars over {a,b,.} x every pattern of <= 4 chars over {a,b,.,*} with <= 3 stars (thorough: 4 / 5), and a real depth-3 tree x every 1-3 segment pattern over 10 directory and 12 file segments, relative and absolute: the returned list equals, as a set, the files whose path matches segment by segment; no duplicates, no directories.",
          "Star-only directory segments and ./.. excluded as in the property."),
+ "C19": ("model_checking", "stateless exploration of thread interleavings under a cooperative scheduler (preemption-bounded DFS) with a vector-clock race check; instrumentation generated from the current tree",
+         "DESIGN.md 4/C19",
+         "Six 2-3 thread scenarios of concurrent Compile and Run calls (shared and private programs) are executed on the real code under a scheduler that runs one goroutine at a time and may switch at every access to a package-level variable of libvore (found by type-checking the current tree; the overlay is regenerated on every run), every lock operation (sync types replaced by scheduler-aware shims), every VM instruction and call boundary; all schedules with <= 2 (thorough 3) preemptions run to completion (~39k executions per quick run). Every call must return what it returns alone, no two accesses to an instrumented variable with a write may be unordered by program order / lock hand-over, shared bytecode must not change, no deadlock.",
+         "Accesses to heap objects that are neither package-level variables nor visible in results or bytecode, and memory-model effects, are outside the explorer's alphabet."),
 }
 
 PENDING_REASON = "check not built yet in this round of work (framework is being extended property by property; see DESIGN.md section 7)"
